@@ -456,8 +456,14 @@ class LibMixin:
         if isinstance(v, (VU, VOpaque)):
             if name == "__class__":
                 return [(st, VConst(("classof", v)))]
-            f = z3.Function("attr$" + name, U, I, U)
-            return [(st, VU(f(v.t, z3.IntVal(st.world))))]
+            out = []
+            for s, tv in self.split_tags(st, v):
+                if isinstance(tv, (VU, VOpaque)):
+                    f = z3.Function("attr$" + name, U, I, U)
+                    out.append((s, VU(f(tv.t, z3.IntVal(s.world)))))
+                else:
+                    out.extend(self.get_attr(s, tv, name, node))
+            return out
         if isinstance(v, VConst):
             if isinstance(v.py, tuple) and v.py and v.py[0] == "module":
                 r = self.module_name(load.get_module(v.py[1]), name)
